@@ -50,6 +50,9 @@ def rdw (init : Nat → Nat) (stores : List (Nat × Nat)) (i : Nat) : Nat :=
   | some p => p.2
   | none => init i
 
+/-- byte `k` of the little-endian object representation of `v` replaced by `b` (a store through `(uint8_t *)&v`) -/
+def setByte (v k b : Nat) : Nat := v - (v / 2 ^ (8 * k) % 256) * 2 ^ (8 * k) + b * 2 ^ (8 * k)
+
 /-- stores of a callee that was handed `buf + off` -/
 def shiftW (off : Nat) (stores : List (Nat × Nat)) : List (Nat × Nat) := stores.map fun p => (off + p.1, p.2)
 
@@ -231,6 +234,9 @@ def learn_typedefs(cfile, node):
 
 
 LEARNED = set()
+c2lean.UNSIGNED.setdefault("__uint128_t", 128)
+c2lean.UNSIGNED.setdefault("unsigned __int128", 128)
+CONSTANT_CALLS = {"endianIsLittle": 1}      # platform facts (x86-64, little-endian): part of the trusted base
 
 
 class Fn2(c2lean.Fn):
@@ -368,6 +374,9 @@ class Fn2(c2lean.Fn):
         return env.writes[buf].expr() if buf in env.writes else "[]"
 
     def read_at(self, env, buf, pos, ty):
+        if isinstance(buf, str) and buf.startswith("@bytes:"):
+            loc = env.vars[buf[7:]]
+            return V(f"(({loc.s} / 2 ^ (8 * {paren(str(pos))})) % 256)", Ty("u", 8))
         if buf in self.write_bufs:
             if buf not in self.rmw:
                 self.rmw.append(buf)
@@ -495,6 +504,8 @@ class Fn2(c2lean.Fn):
             env.prelets.append(f"let {nm} := (sx 64 (({sa} + {sb}) % (2 ^ 64 : Int)).toNat)")
             env.vars[r.addr_of] = V(nm, cur.ty if cur.ty.kind == "i" else t64)
             return V(f"(({sa} + {sb} < -(2 ^ 63 : Int)) ∨ ({sa} + {sb} > (2 ^ 63 : Int) - 1))", Ty("i", 32), prop=True)
+        if cn in CONSTANT_CALLS:
+            return V(str(CONSTANT_CALLS[cn]), Ty("u", 1))
         args = [self.expr(a, env) for a in n["inner"][1:]]
         callee = self.tr.done.get(cn)
         if callee is None:
@@ -508,7 +519,10 @@ class Fn2(c2lean.Fn):
                 if a.ptr is None:
                     raise Unsupported("buffer argument that is not a parameter buffer")
                 buf, off = a.ptr
-                if buf in self.write_bufs:
+                if isinstance(buf, str) and buf.startswith("@bytes:"):
+                    loc = env.vars[buf[7:]]
+                    texts.append(f"(fun i => ({loc.s} / 2 ^ (8 * ({off} + i))) % 256)")
+                elif buf in self.write_bufs:
                     if buf not in self.rmw:
                         self.rmw.append(buf)
                     texts.append(f"(fun i => rdw {buf}0 {self.wexpr(env, buf)} ({off} + i))")
@@ -598,6 +612,29 @@ class Fn2(c2lean.Fn):
             return V("()", Ty("void"))
         return V(proj(0), callee.ret)
 
+    def arith(self, op, a, b, ty):
+        if ty.kind == "i" and op in ("&", "|", "^"):
+            ca, cb = self.conv(a, ty), self.conv(b, ty)
+
+            def nat_of(t):
+                m = re.fullmatch(r"\(\((.*) : Nat\) : Int\)", t)
+                if m and balanced("(" + m.group(1) + ")"):
+                    return m.group(1)
+                m = re.fullmatch(r"\((\d+) : Int\)", t)
+                if m:
+                    return m.group(1)
+                return None
+
+            na, nb = nat_of(ca.s), nat_of(cb.s)
+            if na is not None and nb is not None:
+                if op == "&":
+                    for x, y in ((na, nb), (nb, na)):
+                        if re.fullmatch(r"\d+", y) and (int(y) + 1) & int(y) == 0 and int(y) > 0:
+                            return V(f"((({x} % {int(y) + 1}) : Nat) : Int)", ty)
+                sym = {"&": "&&&", "|": "|||", "^": "^^^"}[op]
+                return V(f"((({na} {sym} {nb}) : Nat) : Int)", ty)
+        return super().arith(op, a, b, ty)
+
     # ------------------------------------------------------------------ statements
     def ret_tuple(self, env, retv):
         comps = []
@@ -670,7 +707,12 @@ class Fn2(c2lean.Fn):
             if ctx.kind != "loop":
                 raise Unsupported("continue outside a loop")
             return ctx.cont(env)
+        if k == "AttributedStmt":
+            return self.block([c for c in inner if c.get("kind", "").endswith("Stmt")] + rest, env, ctx)
         if k == "SwitchStmt":
+            d = self.desugar_switch(s)
+            if d is not None:
+                return self.block([d] + rest, env, ctx)
             return self.switch(s, rest, env, ctx)
         # simple statements: lets, then the rest
         env.pending, env.prelets = [], []
@@ -709,6 +751,9 @@ class Fn2(c2lean.Fn):
                 init = [c for c in d.get("inner", []) if "kind" in c and c["kind"].endswith(("Expr", "Literal", "Operator"))]
                 if ty.kind == "ptr":
                     v = self.expr(init[0], env) if init else None
+                    if v is not None and v.ptr is None and v.addr_of is not None and ty.elem.kind == "u" and ty.elem.width == 8:
+                        env.vars[d["name"]] = V("", ty, ptr=("@bytes:" + v.addr_of, 0))    # byte view of a local
+                        continue
                     if v is None or v.ptr is None:
                         if not init or skip_casts(init[0]).get("kind") in ("GNUNullExpr", "IntegerLiteral"):
                             env.vars[d["name"]] = V("", ty, ptr=None)       # = NULL, assigned later
@@ -766,11 +811,24 @@ class Fn2(c2lean.Fn):
             return pre + self.assign(inner[0], val, env)
         if k == "CallExpr":
             cn = callee_name(s)
-            if cn in ("assert", "__assert_fail"):
-                return ""
+            if cn in ("assert", "__assert_fail", "__builtin_unreachable"):
+                return ""          # __builtin_unreachable(): reaching it is UB, assumed absent
             if cn in ("memcpy", "__builtin_memcpy"):
                 args = s["inner"][1:]
                 dst, src = self.expr(args[0], env), self.expr(args[1], env)
+                if dst.ptr is not None and src.ptr is not None:
+                    # byte-wise copy of a constant number of bytes between byte buffers / byte views
+                    nb = self.expr(args[2], env)
+                    cnt = const_int(nb.s)
+                    if cnt is None or cnt > 64:
+                        raise Unsupported("memcpy with a non-constant length")
+                    u8 = Ty("u", 8)
+                    out = ""
+                    vals = [self.read_at(env, src.ptr[0], self.padd(src.ptr[1], i), u8) for i in range(cnt)]
+                    out += self.flush_lets(env)
+                    for i, bv in enumerate(vals):
+                        out += self.store_at(env, dst.ptr[0], self.padd(dst.ptr[1], i), bv, u8)
+                    return out
                 if dst.ptr is None or src.addr_of is None or dst.ptr[0] not in self.out_params:
                     raise Unsupported("memcpy that is not `memcpy(out_param, &local, sizeof local)`")
                 loc = env.vars[src.addr_of]
@@ -807,7 +865,8 @@ class Fn2(c2lean.Fn):
         """`static void` helper without loops/returns: inlined (as in c2lean)"""
         cn = callee_name(s)
         callee = Fn2(self.tr, self.cfile, cn)
-        if callee.ret.kind != "void" or any(has_kind(callee.body, x) for x in ESCAPES):
+        if callee.ret.kind != "void" or any(has_kind(callee.body, x) for x in ("ReturnStmt", "ContinueStmt", "GotoStmt")) \
+                or self.has_real_loop(callee.body):
             raise Unsupported(f"call to untranslated {cn} with control flow / result")
         pre = ""
         saved = {}
@@ -834,9 +893,58 @@ class Fn2(c2lean.Fn):
                 env.vars[k2] = v2
         return pre
 
+    def desugar_switch(self, s):
+        """a switch whose `break`s all sit at the top level of its body becomes a chain of `if (e == k)` (the controlling
+        expression must be free of side effects: it is evaluated once per arm)"""
+        inner = s["inner"]
+        items = self.flatten_switch(inner[-1])
+
+        def nested_break(n, top=True):
+            if not isinstance(n, dict):
+                return False
+            if n.get("kind") == "BreakStmt":
+                return not top
+            if n.get("kind") in LOOPS + ("SwitchStmt",):
+                return False
+            return any(nested_break(c, False) for c in n.get("inner", []) or [])
+
+        if any(it[0] == "stmt" and nested_break(it[1]) for it in items):
+            return None
+        cond = inner[0]
+
+        def code_from(pos):
+            seq = []
+            for it in items[pos:]:
+                if it[0] != "stmt":
+                    continue
+                if it[1]["kind"] == "BreakStmt":
+                    break
+                seq.append(it[1])
+            return {"kind": "CompoundStmt", "inner": seq}
+
+        arms, default = [], None
+        for pos, it in enumerate(items):
+            if it[0] == "case":
+                arms.append((it[1], pos))
+            elif it[0] == "default":
+                default = pos
+        node = code_from(default) if default is not None else {"kind": "CompoundStmt", "inner": []}
+        for val, pos in reversed(arms):
+            c = {"kind": "BinaryOperator", "opcode": "==", "type": {"qualType": "int"},
+                 "inner": [cond, {"kind": "IntegerLiteral", "value": str(val), "type": cond.get("type", {"qualType": "int"})}]}
+            node = {"kind": "IfStmt", "inner": [c, code_from(pos), node]}
+        return node
+
     def simple_or_join(self, c, env):
         if c["kind"] == "IfStmt":
             return self.join_if(c, env)
+        if c["kind"] == "SwitchStmt":
+            d = self.desugar_switch(c)
+            if d is None:
+                raise Unsupported("switch with nested break inside a joined branch")
+            return self.simple_or_join(d, env)
+        if c["kind"] == "AttributedStmt":
+            return "".join(self.simple_or_join(x, env) for x in c.get("inner", []) if x.get("kind", "").endswith("Stmt"))
         if c["kind"] == "CompoundStmt":
             return "".join(self.simple_or_join(x, env) for x in c.get("inner", []))
         if c["kind"] == "NullStmt":
@@ -875,6 +983,12 @@ class Fn2(c2lean.Fn):
             ty = parse_type(lhs["type"])
             v = self.conv(val, ty)
             pre = self.flush_lets(env)
+            if isinstance(buf, str) and buf.startswith("@bytes:"):
+                name = buf[7:]
+                cur = env.vars[name]
+                new = env.fresh(name, lty(cur.ty))
+                env.vars[name] = V(new, cur.ty)
+                return pre + f"let {new} : Nat := setByte {cur.s} {paren(str(pos))} {paren(v.s)}\n"
             if buf in self.out_params:
                 new = env.fresh(buf)
                 env.outs[buf] = new
@@ -884,7 +998,7 @@ class Fn2(c2lean.Fn):
             new = env.fresh(f"{buf}_b")
             w = env.writes.setdefault(buf, W())
             w.items.append((pos, new))
-            return pre + f"let {new} := {v.s}\n"
+            return pre + f"let {new} : Nat := {v.s}\n"
         if lhs["kind"] == "MemberExpr" and lhs.get("isArrow"):
             base = lhs["inner"][0]
             while base["kind"] in ("ImplicitCastExpr", "ParenExpr"):
@@ -898,6 +1012,21 @@ class Fn2(c2lean.Fn):
             env.outs[f"{sn}.{lhs['name']}"] = new
             return self.flush_lets(env) + f"let {new} := {v.s}\n"
         raise Unsupported(f"assignment to {lhs['kind']}")
+
+    def store_at(self, env, buf, pos, val, ty):
+        v = self.conv(val, ty)
+        if isinstance(buf, str) and buf.startswith("@bytes:"):
+            name = buf[7:]
+            cur = env.vars[name]
+            new = env.fresh(name, lty(cur.ty))
+            env.vars[name] = V(new, cur.ty)
+            return f"let {new} : Nat := setByte {cur.s} {paren(str(pos))} {paren(v.s)}\n"
+        if buf not in self.write_bufs:
+            raise Unsupported(f"store into {buf}, which is not a write buffer")
+        new = env.fresh(f"{buf}_b")
+        w = env.writes.setdefault(buf, W())
+        w.items.append((pos, new))
+        return f"let {new} : Nat := {v.s}\n"
 
     def fall_off(self, env, ctx):
         if ctx.kind == "loop":
@@ -915,6 +1044,9 @@ class Fn2(c2lean.Fn):
         escapes = any(has_kind(then, x) for x in esc) or (els is not None and any(has_kind(els, x) for x in esc)) \
             or self.has_real_loop(then) or (els is not None and self.has_real_loop(els)) \
             or self.calls_fuel(then) or (els is not None and self.calls_fuel(els))
+        if self.const_cond(inner[0]) is not None:
+            live = then if self.const_cond(inner[0]) != 0 else els
+            return self.block(([live] if live else []) + rest, env, ctx)
         if not escapes:
             env.pending, env.prelets = [], []
             t = self.join_if(s, env)
@@ -925,39 +1057,82 @@ class Fn2(c2lean.Fn):
         cond = self.expr(inner[0], env)
         pend, lets = env.pending, env.prelets
         env.pending, env.prelets = [], []
+        if not cond.prop and const_int(cond.s) is not None and not pend and not lets:
+            # a compile-time constant condition (platform fact): only the live branch is translated
+            live = then if const_int(cond.s) != 0 else els
+            return self.block(([live] if live else []) + rest, env, ctx)
         c = self.nz(cond)
         t = self.block([then] + rest, env.copy(), ctx)
         e = self.block(([els] if els else []) + rest, env.copy(), ctx)
         return self.bind(env, ctx, pend, lets, f"if {c} then\n{I(t)}\nelse\n{I(e)}")
 
+    def const_cond(self, n):
+        n = skip_casts(n)
+        if n.get("kind") == "CallExpr" and callee_name(n) in CONSTANT_CALLS:
+            return CONSTANT_CALLS[callee_name(n)]
+        return None
+
     def join_if(self, s, env):
-        """if without escapes: both branches are evaluated to the tuple of what either of them changes"""
-        inner = s["inner"]
-        cond = self.expr(inner[0], env)
-        pre = self.flush_lets(env)
-        c = self.nz(cond)
-        then = inner[1]
-        els = inner[2] if len(inner) > 2 else None
-        e1, e2 = env.copy(), env.copy()
-        e1.pending, e1.prelets, e2.pending, e2.prelets = [], [], [], []
-        t1 = self.simple_or_join(then, e1)
-        t2 = self.simple_or_join(els, e2) if els is not None else ""
-        local = set(declared_names(then)) | (set(declared_names(els)) if els else set())
+        """if (… else if … else) without escapes: every arm is evaluated to the tuple of what any of them changes.
+        An `else` that is itself a single `if` continues the same chain (one `let`, not a nested one), provided its
+        condition needs no bindings of its own."""
+        arms = []          # (condition text, env after the arm, lets of the arm)
+        pre = ""
+        node = s
+        local = set()
+        first = True
+        while True:
+            inner = node["inner"]
+            saved_lets = env.prelets
+            env.prelets = []
+            cond = self.expr(inner[0], env)
+            if first:
+                pre = "\n".join(saved_lets + env.prelets)
+                pre = pre + "\n" if pre else ""
+                env.prelets = []
+            elif env.prelets or env.pending:
+                raise Unsupported("else-if condition with side effects inside a joined chain")
+            else:
+                env.prelets = saved_lets
+            first = False
+            c = self.nz(cond)
+            then = inner[1]
+            els = inner[2] if len(inner) > 2 else None
+            e1 = env.copy()
+            e1.pending, e1.prelets = [], []
+            t1 = self.simple_or_join(then, e1)
+            local |= set(declared_names(then))
+            arms.append((c, e1, t1))
+            nxt = els
+            while nxt is not None and nxt.get("kind") == "CompoundStmt" and len(nxt.get("inner", [])) == 1:
+                nxt = nxt["inner"][0]
+            if nxt is not None and nxt.get("kind") == "IfStmt" and self.const_cond(nxt["inner"][0]) is None \
+                    and self.pure_cond(nxt["inner"][0]):
+                node = nxt
+                continue
+            e2 = env.copy()
+            e2.pending, e2.prelets = [], []
+            t2 = self.simple_or_join(els, e2) if els is not None else ""
+            if els is not None:
+                local |= set(declared_names(els))
+            arms.append((None, e2, t2))
+            break
+        envs = [a[1] for a in arms]
         changed = []       # (kind, key)
         for nm in env.vars:
             if nm in local:
                 continue
-            a, b, o = e1.vars.get(nm), e2.vars.get(nm), env.vars[nm]
-            if a is None or b is None:
+            o = env.vars[nm]
+            vs = [e.vars.get(nm) for e in envs]
+            if any(v is None for v in vs):
                 continue
-            if (a.s, a.ptr) != (o.s, o.ptr) or (b.s, b.ptr) != (o.s, o.ptr):
+            if any((v.s, v.ptr) != (o.s, o.ptr) for v in vs):
                 changed.append(("var", nm))
         for key in self.out_keys():
-            if e1.outs.get(key) != env.outs.get(key) or e2.outs.get(key) != env.outs.get(key):
+            if any(e.outs.get(key) != env.outs.get(key) for e in envs):
                 changed.append(("out", key))
         for buf in self.write_bufs:
-            if e1.writes.get(buf, W()).expr() != env.writes.get(buf, W()).expr() or \
-                    e2.writes.get(buf, W()).expr() != env.writes.get(buf, W()).expr():
+            if any(e.writes.get(buf, W()).expr() != env.writes.get(buf, W()).expr() for e in envs):
                 changed.append(("w", buf))
         if not changed:
             return pre
@@ -986,7 +1161,30 @@ class Fn2(c2lean.Fn):
         tup = lambda e: ("(" + ", ".join(val(e, k_, key) for k_, key in changed) + ")") if len(changed) > 1 \
             else val(e, changed[0][0], changed[0][1])  # noqa: E731
         pat = "(" + ", ".join(names) + ")" if len(names) > 1 else names[0]
-        text = f"let {pat} := if {c} then\n{I(t1 + tup(e1), 4)}\n  else\n{I(t2 + tup(e2), 4)}\n"
+        tys = " × ".join(env.types.get(nm, "Nat") for nm in names)
+        text = f"let {pat} : {tys} := "
+        hoist = len(arms) > 6      # long chains (switch tables): every arm becomes a definition of its own — one huge
+        #                            term is elaborated in super-linear time
+        known = self.known_names(env, [n_ for n_ in env.types if n_ not in names]) if hoist else {}
+        for k_, (c, e, t) in enumerate(arms):
+            body = t + tup(e)
+            if hoist and t.strip():
+                self.narms = getattr(self, "narms", 0) + 1
+                aname = f"{self.lean_name}_arm{self.narms}"
+                caps = [nm for nm in known if re.search(r"(?<![\w.'])" + re.escape(nm) + r"(?![\w'])", body)]
+                bound = set()
+                for grp in re.findall(r"let \(?([\w', ]+?)\)? *:", body):
+                    bound |= {x.strip() for x in grp.split(",")}
+                caps = [nm for nm in caps if nm not in bound and known[nm] != "?"]
+                capsig = " ".join(f"({nm} : {known[nm]})" for nm in caps)
+                self.loops.append(f"/-- arm {self.narms} of a switch / else-if chain of `{self.name}` -/\n"
+                                  f"def {aname} {capsig} : {tys} :=\n{I(body)}\n")
+                body = f"{aname} {' '.join(caps)}".strip()
+            if c is not None:
+                text += ("if " if k_ == 0 else "  else if ") + f"{c} then\n{I(body, 4)}\n"
+            else:
+                text += f"  else\n{I(body, 4)}\n"
+        e1 = arms[0][1]
         for (kind, key), nm in zip(changed, names):
             if kind == "var":
                 o = env.vars[key]
@@ -1000,6 +1198,16 @@ class Fn2(c2lean.Fn):
             else:
                 env.writes[key] = W(nm)
         return pre + text
+
+    def pure_cond(self, n):
+        """no assignment / increment / call inside the expression"""
+        if not isinstance(n, dict):
+            return True
+        k = n.get("kind")
+        if k in ("CallExpr", "CompoundAssignOperator") or (k == "BinaryOperator" and n.get("opcode") == "=") or \
+                (k == "UnaryOperator" and n.get("opcode") in ("++", "--")):
+            return False
+        return all(self.pure_cond(c) for c in n.get("inner", []) or [])
 
     # ------------------------------------------------------------------ switch (escaping form only)
     def switch(self, s, rest, env, ctx):
@@ -1344,6 +1552,26 @@ def skip_casts(n):
 # variable the name belongs to.
 
 class Translator2(Translator):
+    def enum_value(self, cfile, name):
+        """value of an enumerator: evaluated by gcc against the headers the translation unit includes"""
+        if name not in self.enums:
+            import subprocess
+            import tempfile
+            incs = re.findall(r'^\s*#include\s+"([^"]+)"', open(cfile).read(), re.M)
+            if cfile.endswith(".h"):
+                incs.append(os.path.basename(cfile))
+            src = "#include <stdio.h>\n" + "".join(f'#include "{i}"\n' for i in incs) + \
+                  f'int main(void){{printf("%lld", (long long)({name}));return 0;}}\n'
+            with tempfile.TemporaryDirectory(prefix="c2l.") as d:
+                pth = os.path.join(d, "e.c")
+                open(pth, "w").write(src)
+                r = subprocess.run(["gcc", "-std=gnu11", "-w", "-I", SRC, "-I", os.path.dirname(cfile), pth, "-o",
+                                    os.path.join(d, "e")], capture_output=True, text=True)
+                if r.returncode != 0:
+                    return Translator.enum_value(self, cfile, name)
+                self.enums[name] = int(subprocess.run([os.path.join(d, "e")], capture_output=True, text=True).stdout)
+        return self.enums[name]
+
     def global_const(self, cfile, name):
         """value of a file-scope `static const` integer with a literal initialiser"""
         key = (cfile, name)
@@ -1403,6 +1631,16 @@ TARGETS2 = {
         ("varintTagged.c", "varintTaggedAdd", "taggedAdd"),
         ("varintTagged.c", "varintTaggedAddNoGrow", "taggedAddNoGrow"),
         ("varintTagged.c", "varintTaggedAddGrow", "taggedAddGrow"),
+    ],
+    "CExternal": [
+        ("varintExternal.c", "varintExternalCopyUsedBytesLittleEndian_", "extCopyUsedLE"),
+        ("varintExternal.c", "varintExternalLoadFromEncodingLittleEndian_", "extLoadLE"),
+        ("varintExternal.c", "varintExternalPut", "extPut"),
+        ("varintExternal.c", "varintExternalPutFixedWidth", "extPutFixedWidth"),
+        ("varintExternal.c", "varintExternalGet", "extGet"),
+        ("varintExternal.c", "varintExternalAdd_", "extAdd"),
+        ("varintExternal.c", "varintExternalAddNoGrow", "extAddNoGrow"),
+        ("varintExternal.c", "varintExternalAddGrow", "extAddGrow"),
     ],
     "CAdaptive": [
         ("varintAdaptive.c", "varintAdaptiveCheckSorted", "adaptiveCheckSorted"),
